@@ -181,3 +181,162 @@ theorem eval_eq_of_same (e1 e2 : E) (h : same e1 e2 = true) (env : Nat → Nat)
 end E
 
 end C15
+
+/-! ## Generic round-trip lemmas for codecs given as expression lists -/
+namespace C15
+
+theorem getD_map_eval (l : List E) (env : Nat → Nat) (i : Nat) :
+    (l.map (E.eval env)).getD i 0 = (l.getD i (.lit 0)).eval env := by
+  simp only [List.getD_eq_getElem?_getD, List.getElem?_map]
+  cases l[i]? <;> simp [E.eval]
+
+/-- `same`, looking through a top-level `ite` (condition values equal, branches equal). -/
+def E.sameX : E → E → Bool
+  | .ite c t e, .ite c' t' e' => E.same c c' && E.sameX t t' && E.sameX e e'
+  | a, b => E.same a b
+
+theorem E.eval_eq_of_sameX (e1 e2 : E) (h : E.sameX e1 e2 = true) (env : Nat → Nat)
+    (henv : ∀ i, env i < 256) : e1.eval env = e2.eval env := by
+  induction e1 generalizing e2 with
+  | ite c t e _ iht ihe =>
+    cases e2 with
+    | ite c' t' e' =>
+      simp only [E.sameX, Bool.and_eq_true] at h
+      simp only [E.eval, E.eval_eq_of_same c c' h.1.1 env henv, iht t' h.1.2, ihe e' h.2]
+    | _ => exact E.eval_eq_of_same _ _ (by simpa [E.sameX] using h) env henv
+  | _ => exact E.eval_eq_of_same _ _ (by simpa [E.sameX] using h) env henv
+
+def sameList : List E → List E → Bool
+  | [], [] => true
+  | a :: as, b :: bs => E.sameX a b && sameList as bs
+  | _, _ => false
+
+theorem map_eval_eq_of_sameList (l1 l2 : List E) (h : sameList l1 l2 = true) (env : Nat → Nat)
+    (henv : ∀ i, env i < 256) : l1.map (E.eval env) = l2.map (E.eval env) := by
+  induction l1 generalizing l2 with
+  | nil => cases l2 <;> simp_all [sameList]
+  | cons a as ih =>
+    cases l2 with
+    | nil => simp [sameList] at h
+    | cons b bs =>
+      simp only [sameList, Bool.and_eq_true] at h
+      simp only [List.map_cons, E.eval_eq_of_sameX a b h.1 env henv, ih bs h.2]
+
+theorem Px.env_lt (p : Px) (hp : p.valid) : ∀ i, p.env i < 256 := by
+  intro i
+  obtain ⟨h0, h1, h2, h3⟩ := hp
+  unfold Px.env
+  split <;> assumption
+
+theorem bytesEnv_lt (bs : List Nat) (h : ∀ b ∈ bs, b < 256) : ∀ i, bytesEnv bs i < 256 := by
+  intro i
+  simp only [bytesEnv, List.getD_eq_getElem?_getD]
+  cases hi : bs[i]? with
+  | none => simp
+  | some b => simpa using h b (List.mem_of_getElem? hi)
+
+/-- decoding what was encoded = evaluating the substituted expressions on the pixel. -/
+theorem loadF_saveF (c : Codec) (p : Px) :
+    loadF c (saveF c p) = Px.ofList ((c.load.map (E.subst c.save)).map (E.eval p.env)) := by
+  unfold loadF saveF
+  congr 1
+  rw [List.map_map]
+  apply List.map_congr_left
+  intro e _
+  simp only [Function.comp, E.eval_subst]
+  congr 1
+  funext i
+  exact getD_map_eval c.save p.env i
+
+/-- encoding what was decoded = evaluating the substituted expressions on the bytes. -/
+theorem saveF_loadF (c : Codec)
+    (hv : c.save.all (varsBelow 4) = true) (bs : List Nat) :
+    saveF c (loadF c bs) = (c.save.map (E.subst c.load)).map (E.eval (bytesEnv bs)) := by
+  unfold saveF
+  rw [List.map_map]
+  apply List.map_congr_left
+  intro e he
+  simp only [Function.comp, E.eval_subst]
+  apply E.eval_congr 4
+  · intro i hi
+    rw [← getD_map_eval]
+    unfold loadF Px.ofList Px.env
+    match i, hi with
+    | 0, _ => rfl
+    | 1, _ => rfl
+    | 2, _ => rfl
+    | 3, _ => rfl
+  · exact List.all_eq_true.mp hv e he
+
+/-- **Quantisation law from a closed check**: if the substituted loader expressions have the same
+bit routing as the quantisation expressions `q`, then `load (save p) = q(p)` for every pixel. -/
+theorem quant_of_same (c : Codec) (q : List E)
+    (h : sameList (c.load.map (E.subst c.save)) q = true) (p : Px) (hp : p.valid) :
+    loadF c (saveF c p) = Px.ofList (q.map (E.eval p.env)) := by
+  rw [loadF_saveF, map_eval_eq_of_sameList _ _ h p.env (Px.env_lt p hp)]
+
+/-- **Word law from a closed check**: `save (load bytes) = w(bytes)` for every byte string. -/
+theorem words_of_same (c : Codec) (wq : List E)
+    (hv : c.save.all (varsBelow 4) = true)
+    (h : sameList (c.save.map (E.subst c.load)) wq = true) (bs : List Nat)
+    (hb : ∀ b ∈ bs, b < 256) :
+    saveF c (loadF c bs) = wq.map (E.eval (bytesEnv bs)) := by
+  rw [saveF_loadF c hv, map_eval_eq_of_sameList _ _ h _ (bytesEnv_lt bs hb)]
+
+/-- every byte a bitwise saver produces is a byte. -/
+def bytesOK (c : Codec) : Bool := c.save.all fun e => e.bitwise && e.wid ≤ 8
+
+theorem saveF_lt (c : Codec) (h : bytesOK c = true) (p : Px) (hp : p.valid) :
+    ∀ b ∈ saveF c p, b < 256 := by
+  intro b hb
+  simp only [saveF, List.mem_map] at hb
+  obtain ⟨e, he, rfl⟩ := hb
+  have hw := List.all_eq_true.mp h e he
+  simp only [Bool.and_eq_true, decide_eq_true_eq] at hw
+  have l := E.eval_lt_wid p.env (Px.env_lt p hp) e hw.1
+  exact Nat.lt_of_lt_of_le l (by
+    have h8 : (256 : Nat) = 2 ^ 8 := rfl
+    rw [h8]; exact Nat.pow_le_pow_right (by decide) hw.2)
+
+end C15
+
+/-! ## The documented quantisations as expressions (evaluate to `q5 …` by definition) -/
+namespace C15
+
+def qE5 (x : E) : E := .or (.and x (.lit 248)) (.shr x 5)
+def qE6 (x : E) : E := .or (.and x (.lit 252)) (.shr x 6)
+def qE4 (x : E) : E := .or (.and x (.lit 240)) (.shr x 4)
+def qE1 (x : E) : E := .ite (.and x (.lit 128)) (.lit 255) (.lit 0)
+def qE565 : List E := [qE5 R, qE6 G, qE5 B, .lit 255]
+/-- what the 565 codecs do as coded: red and blue exchanged. -/
+def qE565swapped : List E := [qE5 B, qE6 G, qE5 R, .lit 255]
+def qE5551x : List E := [qE5 R, qE5 G, qE5 B, .lit 255]
+def qE5551a : List E := [qE5 R, qE5 G, qE5 B, qE1 A]
+def qE4444 : List E := [qE4 R, qE4 G, qE4 B, qE4 A]
+
+end C15
+
+/-! ## Idempotence from a closed check, and the one-bit-alpha helper -/
+namespace C15
+
+/-- **Idempotence from a closed check**: storing the stored pixel again gives the same bytes. -/
+theorem idem_of_same (c : Codec) (hv : c.save.all (varsBelow 4) = true)
+    (h : sameList ((c.save.map (E.subst c.load)).map (E.subst c.save)) c.save = true)
+    (p : Px) (hp : p.valid) : saveF c (loadF c (saveF c p)) = saveF c p := by
+  rw [saveF_loadF c hv]
+  have : (c.save.map (E.subst c.load)).map (E.eval (bytesEnv (saveF c p)))
+      = ((c.save.map (E.subst c.load)).map (E.subst c.save)).map (E.eval p.env) := by
+    have henv : bytesEnv (saveF c p) = fun j => (c.save.getD j (.lit 0)).eval p.env := by
+      funext j; exact getD_map_eval c.save p.env j
+    simp only [List.map_map]
+    apply List.map_congr_left
+    intro e _
+    simp only [Function.comp, E.eval_subst, henv]
+  rw [this, map_eval_eq_of_sameList _ _ h p.env (Px.env_lt p hp)]
+  rfl
+
+/-- `(255 if v & 0x80 else 0) & 0x80 = v & 0x80` for bytes. -/
+theorem alpha_bit : ∀ v, v < 256 → ((if v &&& 128 ≠ 0 then 255 else 0) &&& 128) = v &&& 128 := by
+  decide +kernel
+
+end C15
